@@ -145,6 +145,15 @@ func evalHello(r *ev.Run, c helloCase, ks [][]ech.Key, tail []byte, tag string) 
 			}
 			oc += "+go-agrees"
 		}
+		// a caller that edits the list it was given must not change what the Conn reports afterwards
+		if l := res.Conn.ALPNProtos(); len(l) > 0 {
+			want := slices.Clone(l)
+			slices.Reverse(l)
+			l[0] = "tampered"
+			if again := res.Conn.ALPNProtos(); !slices.Equal(again, want) {
+				r.Violation("reported-alpn-aliases-state:"+tag, fmt.Sprintf("after the caller modified the slice returned by ALPNProtos(), a second call reports %q (first %q)", again, want), replay)
+			}
+		}
 	}
 	r.Eval(string(stream)+fmt.Sprint(c.KeySet), oc)
 }
@@ -300,6 +309,17 @@ func Run(r *ev.Run) {
 			// three and more records whose last fragment is only a few bytes long
 			{10, len(msg) - 3}, {10, len(msg) - 5}, {10, 20, len(msg) - 7}, {10, 20, 30, len(msg) - 12}, {1, 2, 3, 4, 5, 6, 7, 8, len(msg) - 1}, {len(msg) - 3, len(msg) - 2, len(msg) - 1}} {
 			frs = append(frs, fr{fmt.Sprintf("small%v", cuts), tlsref.Fragment(0x0301, msg, cuts...), small})
+		}
+		// messages of exactly 2^14 bytes and one byte either side (one record / two records as the client must frame them), and 2*2^14
+		for _, target := range []int{16383, 16384, 16385, 32768} {
+			h := helloCase{Version: 0x0303, SID: 32, Exts: []int{0, 1, 2}}.build()
+			h.Exts = append(h.Exts, tlsref.Opaque(0x6b6b, 0))
+			pad := target - len(h.Msg())
+			h.Exts[len(h.Exts)-1] = tlsref.Opaque(0x6b6b, pad)
+			if len(h.Msg()) != target {
+				ev.ToolError("c05: cannot build a hello of %d bytes (got %d)", target, len(h.Msg()))
+			}
+			frs = append(frs, fr{fmt.Sprintf("big-exact%d", target), tlsref.FragmentMax(0x0301, h.Msg()), h})
 		}
 		frs = append(frs, fr{"big-at-16384", tlsref.FragmentMax(0x0301, big.Msg()), big}, fr{"big-uneven", tlsref.Fragment(0x0301, big.Msg(), 1000, 17000, 17001, 33000), big})
 		tail := cat2(tlsref.Record(20, 0x0303, []byte{1}), tlsref.Record(23, 0x0303, tlsref.DetBytes("app", 50)))
